@@ -295,6 +295,27 @@ def rule_split(ctx: Ctx, prog: Program) -> None:
     n_loops = 0
     for r in res:
         loops = [l for l in _all_loops(r.state.trace) if l.kind == "for"]
+        # (0) what is returned: a list built in this call, filled only by the splitting loop with deep copies
+        rv = as_view(r.value)
+        built_here = isinstance(rv, View) and not rv.idx and it.allocs.get(rv.root, ("",))[0] in ("list", "alloc", "listcomp", "call") and rv.root.startswith("list#")
+        appended_ok = True
+        n_app = 0
+        for l in loops:
+            for bp in l.paths:
+                copies_ = [as_view(e.ret) for e in bp.events if e.kind == "call" and e.name == "copy.deepcopy"]
+                for e in bp.events:
+                    if e.kind == "mcall" and e.name in ("append", "insert", "extend") and as_view(e.recv) == rv:
+                        n_app += 1
+                        if not (len(e.args) == 1 and as_view(e.args[0]) in copies_):
+                            appended_ok = False
+        outside = [e for e in r.events if e.kind == "mcall" and e.name in ("append", "insert", "extend") and as_view(e.recv) == rv]
+        if built_here and loops and appended_ok and n_app >= 1 and not outside:
+            ctx.ok("R-SPLIT", "returns a fresh list holding only the deep copies made by the splitting loop", sample={"returned": repr(rv)})
+        else:
+            what = repr(r.value) if not built_here else ("no part is appended" if n_app == 0 or not loops else "something other than a deep copy is appended")
+            ctx.violation("R-SPLIT", fn.path, "Problem.split", "returned-parts", f"{fn.path}:{_ret_line_of(r)}",
+                          f"split has a path that returns {what}: every returned sub-problem must be a deep copy made by the splitting loop "
+                          "(returning the problem itself lets a later change of a part alter the original)")
         for l in loops:
             n_loops += 1
             rv = l.iter_value
@@ -367,6 +388,13 @@ def rule_split(ctx: Ctx, prog: Program) -> None:
                 _v(ctx, fn, first_ok, "first part starts at the domain minimum", e, "the first part must start at the minimum of the split domain")
     ctx.floor("R-SPLIT:loops", n_loops, 1)
     ctx.assume("the last part ends at the domain maximum: arithmetic identity k*(s//k) + s%k = s, not a shape (declared undecided)")
+
+
+def _ret_line_of(r) -> int:
+    for e in reversed(r.events):
+        if e.kind == "return":
+            return e.line
+    return 0
 
 
 def _v(ctx: Ctx, fn: FuncInfo, okk: bool, inst: str, e: Event, msg: str) -> None:
